@@ -18,7 +18,7 @@ use rand::{Rng, SeedableRng};
 use rand_xoshiro::Xoshiro256PlusPlus;
 use serde_json::json;
 
-fn shapes(rng: &mut Xoshiro256PlusPlus, n: usize) -> Vec<(&'static str, Vec<f64>)> {
+pub fn shapes(rng: &mut Xoshiro256PlusPlus, n: usize) -> Vec<(&'static str, Vec<f64>)> {
     let mut v: Vec<(&'static str, Vec<f64>)> = Vec::new();
     let u = |rng: &mut Xoshiro256PlusPlus| rng.random::<f64>();
     v.push(("uniform", (0..n).map(|_| u(rng) * 100.0 - 50.0).collect()));
@@ -173,4 +173,56 @@ fn run(prop: &str, shape: &str, p: f64, xs: &[f64], seed: u64, rep: &mut Report)
     }
     rep.bump("streams_decided_to_the_end", 1);
     rep.bump("steps_decided", (xs.len().saturating_sub(4)) as u64);
+}
+
+
+/// implementation -> specification, one P-square step at a time (Trace_QStep.tla): the marker state of
+/// the real estimator before and after every add from the sixth observation on, every number as the
+/// exact dyadic rational it is.  TLC applies Quantile.tla's Step (over unbounded rationals) to the
+/// pre-state and accepts the post-state or not.
+pub fn record_qstep(path: &str, seed: u64, n: usize, rep: &mut Report) {
+    use crate::tmoments::dyadic;
+    use std::io::Write;
+    let dy = |x: f64| -> serde_json::Value {
+        let (s, l, e) = dyadic(x);
+        json!({"m": [s, l], "e": e})
+    };
+    let mut rng = Xoshiro256PlusPlus::seed_from_u64(seed ^ 0x7173);
+    let mut out = std::io::BufWriter::new(std::fs::File::create(path).unwrap());
+    let ps = [0.0, 0.25, 0.5, 0.9, 0.99, 1.0, 0.1];
+    let mut streams = shapes(&mut rng, n);
+    // ties everywhere (small alphabet) and a stream of new minima: the cell search and the extreme markers
+    streams.push(("ties", (0..n).map(|_| [0.1, 0.3, 0.7, 1.1][rng.random_range(0..4)]).collect()));
+    streams.push(("decreasing", (0..n).map(|i| -(i as f64) * 0.37).collect()));
+    for (k, (shape, xs)) in streams.iter().enumerate() {
+        for (j, &p) in ps.iter().enumerate() {
+            // every stream with three of the seven p
+            if (k + j) % 7 > 2 {
+                continue;
+            }
+            writeln!(out, "{}", json!({"op": "qnew", "p": dy(p), "shape": shape})).unwrap();
+            let mut qt = Quantile::new(p);
+            rep.behaviours += 1;
+            rep.bump("traces", 1);
+            for (i, &x) in xs.iter().enumerate() {
+                let pre = if i >= 5 { markers(&qt) } else { None };
+                let ok = std::panic::catch_unwind(std::panic::AssertUnwindSafe(|| qt.add(x))).is_ok();
+                if !ok {
+                    writeln!(out, "{}", json!({"op": "panic", "in": "add"})).unwrap();
+                    break;
+                }
+                if let (Some(a), Some(b)) = (pre, markers(&qt)) {
+                    let st = |m: &crate::quantile::Markers| json!({"q": m.q.iter().map(|&v| dy(v)).collect::<Vec<_>>(), "n": m.n, "m": m.m.iter().map(|&v| dy(v)).collect::<Vec<_>>()});
+                    let est = qt.quantile();
+                    let estv = if est.is_finite() { let mut v = dy(est); v["c"] = json!("fin"); v } else { json!({"c": "nonfinite"}) };
+                    writeln!(out, "{}", json!({"op": "qstep", "x": dy(x), "pre": st(&a), "post": st(&b), "est": estv})).unwrap();
+                    rep.evaluations += 1;
+                } else if i >= 5 {
+                    rep.bump("marker_state_unobservable", 1);
+                }
+            }
+        }
+    }
+    out.flush().unwrap();
+    rep.sample(json!({"family": "qstep-trace", "n": n, "p": ps}));
 }
